@@ -365,7 +365,63 @@ func alphabet() []call {
 			}
 			return fmt.Sprintf("nodes=%d", len(d.NodeList.Nodes))
 		}},
+		// the file entry points (the last nFileCalls entries: they form the file-calls group). Every thread works on
+		// files of its own in one directory; the names of different threads differ in the extension only, or in the
+		// stem only.
+		{"WriteFile(private, own file: same stem, extension of its own)", func(i int) string {
+			return writeFileCall(i, filepath.Join(scratchDir(), "c17-out"+[]string{".json", ".xml", ".spdx"}[i%3]))
+		}},
+		{"WriteFile(private, own file: stem of its own, same extension)", func(i int) string {
+			return writeFileCall(i, filepath.Join(scratchDir(), fmt.Sprintf("c17-out-%d.json", i)))
+		}},
+		{"ParseFile(private, own file)", func(i int) string {
+			d, err := reader.New().ParseFile(inputFile(i))
+			if err != nil {
+				return "err:" + err.Error()
+			}
+			return fmt.Sprintf("nodes=%d", len(d.NodeList.Nodes))
+		}},
+		{"SniffFile(private, own file)", func(i int) string {
+			sn := formats.Sniffer{}
+			f, err := sn.SniffFile(inputFile(i))
+			return fmt.Sprintf("%s/%v", f, err != nil)
+		}},
 	}
+}
+
+const nFileCalls = 4
+
+func scratchDir() string {
+	d := filepath.Join(os.Getenv("MCVERIF_SCRATCH"), fmt.Sprintf("c17-files-%d", os.Getpid()))
+	_ = os.MkdirAll(d, 0o755)
+	return d
+}
+
+// inputFile: the SPDX rendering of thread i's private document, written once per process.
+func inputFile(i int) string {
+	p := filepath.Join(scratchDir(), fmt.Sprintf("c17-in-%d.spdx.json", i))
+	if _, err := os.Stat(p); err != nil {
+		_ = os.WriteFile(p, spdxBytes[i], 0o644)
+	}
+	return p
+}
+
+// writeFileCall writes thread i's private document to path and reports a digest of what the file then holds.
+func writeFileCall(i int, path string) string {
+	_ = os.Remove(path)
+	w := writer.New(writer.WithFormat(formats.CDX15JSON))
+	if err := w.WriteFile(privateDoc(i), path); err != nil {
+		return "err:" + err.Error()
+	}
+	b, err := os.ReadFile(path)
+	if err != nil {
+		return "unreadable:" + err.Error()
+	}
+	n, nerr := rw.NormalizeJSON(b)
+	if nerr != nil {
+		return "not-json"
+	}
+	return fmt.Sprintf("components=%d %x", bytes.Count(b, []byte(`"bom-ref": "n`)), sha256.Sum256([]byte(n)))[:26]
 }
 
 var novelDates [8]int
@@ -481,15 +537,17 @@ func Run(c *engine.Ctx) {
 	// drain anything the race detector printed during start-up
 	_ = sched.NewRaceReports()
 
+	// the generic groups range over the calls in front of the file calls
+	nGen := len(al) - nFileCalls
 	var scenarios []scenario
-	for a := range al {
-		for b := a; b < len(al); b++ {
+	for a := 0; a < nGen; a++ {
+		for b := a; b < nGen; b++ {
 			scenarios = append(scenarios, scenario{calls: [][]int{{a}, {b}}})
 		}
 	}
 	bound := 2
 	c.Group("pairs")
-	c.Bound("pairs", fmt.Sprintf("all %d unordered pairs of %d calls as 2-thread scenarios, every schedule with <= %d preemptions", len(scenarios), len(al), bound))
+	c.Bound("pairs", fmt.Sprintf("all %d unordered pairs of %d calls as 2-thread scenarios, every schedule with <= %d preemptions", len(scenarios), nGen, bound))
 	runScenarios(c, al, scenarios, bound)
 
 	// interleavings INSIDE calls: the code-point seam makes every function entry and loop iteration of the library a
@@ -514,6 +572,36 @@ func Run(c *engine.Ctx) {
 		c.Group("pairs-inside-calls")
 		c.Bound("pairs-inside-calls", fmt.Sprintf("all %d unordered pairs of the %d parsing / writing / detection calls with every function entry and loop iteration of the library as a scheduling point, every schedule with <= 1 preemption", len(scp), len(inner)))
 		runScenarios(c, al, scp, 1)
+	}
+
+	// the file entry points: every pair (a call with itself included), whole calls with <= 2 preemptions and - where the
+	// code-point seam is there - every function entry and loop iteration inside the calls with <= 1 preemption. The
+	// file system is the real one; what a call reports is a digest of the file it wrote, as found after the call.
+	{
+		var scf, scfp []scenario
+		for a := nGen; a < len(al); a++ {
+			for b := a; b < len(al); b++ {
+				scf = append(scf, scenario{calls: [][]int{{a}, {b}}})
+				if vpoint.Sites != 0 {
+					scfp = append(scfp, scenario{calls: [][]int{{a}, {b}}, points: true})
+				}
+			}
+		}
+		// next to a stream call of each kind
+		for a := nGen; a < len(al); a++ {
+			for b, k := range al[:nGen] {
+				if k.Name == "ParseStream(private)" || k.Name == "WriteStream(private, cdx15)" {
+					scf = append(scf, scenario{calls: [][]int{{a}, {b}}})
+					if vpoint.Sites != 0 {
+						scfp = append(scfp, scenario{calls: [][]int{{a}, {b}}, points: true})
+					}
+				}
+			}
+		}
+		c.Group("file-calls")
+		c.Bound("file-calls", fmt.Sprintf("%d two-thread scenarios over the %d file entry points (WriteFile to names that differ in the extension only / in the stem only, ParseFile, SniffFile; each with each and with a stream parse and a stream write): whole calls with <= 2 preemptions and, with the code-point seam, every function entry and loop iteration inside them with <= 1 preemption", len(scf)+len(scfp), nFileCalls))
+		runScenarios(c, al, scf, 2)
+		runScenarios(c, al, scfp, 1)
 	}
 
 	if !c.IsReplay() && !sharedFidelity(c, al) {
@@ -545,8 +633,8 @@ func Run(c *engine.Ctx) {
 		c.Bound("triples", fmt.Sprintf("%d three-thread scenarios over the registry calls (two calls on two threads, one on the third), every schedule with <= 2 preemptions", len(sc3)))
 		runScenarios(c, al, sc3, 2)
 		var sc2 []scenario
-		for a := range al {
-			for b := range al {
+		for a := 0; a < nGen; a++ {
+			for b := 0; b < nGen; b++ {
 				sc2 = append(sc2, scenario{calls: [][]int{{a, b}, {b, a}}})
 			}
 		}
@@ -569,8 +657,8 @@ func Run(c *engine.Ctx) {
 		c.Bound("triples", fmt.Sprintf("%d three-thread scenarios over the registry calls (two calls on two threads, one on the third), every schedule (unbounded preemptions)", len(sc3)))
 		runScenarios(c, al, sc3, -1)
 		var sc2 []scenario
-		for a := range al {
-			for b := range al {
+		for a := 0; a < nGen; a++ {
+			for b := 0; b < nGen; b++ {
 				sc2 = append(sc2, scenario{calls: [][]int{{a, b}, {b, a}}})
 			}
 		}
